@@ -198,6 +198,25 @@ func c15Result(h int, id string, seed int, fail bool) c15types.Result {
 			u.SetIgnoreFailure()
 		}
 		r.Updates = []*api.ContainerUpdate{u}
+		// more updates of rarer shapes: one that only sets the pids limit, one that names a container and
+		// sets nothing, one with several fields; all must come back as they are, in this order
+		if seed%2 == 1 {
+			p := &api.ContainerUpdate{ContainerId: "pids-" + id}
+			p.SetLinuxPidLimits(int64(seed%50 + 1))
+			r.Updates = append(r.Updates, p)
+		}
+		if seed%5 == 0 {
+			r.Updates = append(r.Updates, &api.ContainerUpdate{ContainerId: "bare-" + id})
+		}
+		if seed%4 == 0 {
+			m := &api.ContainerUpdate{ContainerId: "many-" + id}
+			m.SetLinuxCPUShares(uint64(seed%90 + 2))
+			m.SetLinuxCPUSetCPUs("0-1")
+			m.AddLinuxHugepageLimit("2M", uint64(seed))
+			m.AddLinuxUnified("memory.high", fmt.Sprint(seed))
+			m.SetLinuxBlockIOClass("cls")
+			r.Updates = append(r.Updates, m)
+		}
 	}
 	if fail {
 		r.Err = fmt.Errorf("handler-error-%s-%s", name, id)
